@@ -2,40 +2,13 @@
    (Lib/RS codec theorems, C13.Model reconstruct_plan / rs_encode_one) and of the judgements of C04/RSModel.v that the
    RS harness of C04 is checked against on every run. *)
 From Coq Require Import List NArith ZArith Arith Bool Lia.
-From BLB Require Import Lib.RS Lib.RSProofs C13.Model C13.Props C04.RSProofs.
+From BLB Require Import Lib.RS C13.Model C04.RSProofs.
 From BLB Require C04.RSModel.
+(* This file imports DEFINITIONS of the C13 development only (see the remark in RSProofs.v); the corollaries that rest on
+   C13's codec proofs (c04_rs_reconstruction_exact, c04_rs_data_recoverable, the codec clause of refusal) are compiled in
+   C04/PropsRSCodec.v. *)
 Import ListNotations.
-
-(* [FULL] c04_rs_reconstruction_exact - for every configured class and every stripe contents and every durable host list and every bad set that covers between one and m pieces with the first n good pieces holding their original bytes whatever the bad pieces hold and whatever nonzero servers placement chose the plan of reconstructChunk exists and its index map sources destinations and padding make the reconstruct verify and write loop of RSEncode write exactly original piece i to the destination chosen for every bad index i and nothing to the padded destinations and the host list it commits has the same length and names the new server at every bad index and the old server at every other index *)
-Theorem c04_rs_reconstruction_exact :
-  forall n m, In (n, m) rs_classes ->
-  forall len d hosts bad newids pieces,
-    wf_data n len d -> length hosts = n + m ->
-    let E := encode_shards n m d in
-    let dst := dst_of hosts bad in
-    let ok := ok_of hosts bad in
-    dst <> [] -> length dst <= m -> length newids = length dst -> Forall (fun id => id <> 0%N) newids ->
-    (forall i, In i (firstn n ok) -> nth i pieces [] = nth i E []) ->
-    exists p, reconstruct_plan n m hosts bad newids = Some p /\
-              rs_encode_one n m (class_matrix n m) pieces (p_map p) (map (fun id => negb (N.eqb id 0)) (p_dests p))
-              = Some (map (fun i => Some (nth i E [])) dst ++ repeat None (m - length dst)) /\
-              length (p_hosts p) = length hosts /\
-              (forall q, q < length dst -> nth (nth q dst 0) (p_hosts p) 0%N = nth q newids 0%N) /\
-              (forall i, ~ In i dst -> nth i (p_hosts p) 0%N = nth i hosts 0%N).
-Proof.
-  intros n m C len d hosts bad newids pieces WF L E dst ok ND LM LN NZ SRC.
-  subst dst ok. unfold dst_of, ok_of in *.
-  assert (SQ : seq 0 (length hosts) = seq 0 (n + m)) by now rewrite L.
-  rewrite SQ in *.
-  destruct (indexmap_correct n m C len d hosts bad newids pieces WF L ND LM LN NZ SRC) as (p & P & _ & _ & _ & ENC).
-  exists p. split; [exact P|]. split; [exact ENC|].
-  pose proof (plan_hosts_eq _ _ _ _ _ _ P) as H. unfold dst_of in H. rewrite SQ in H. rewrite H.
-  apply reconstruct_hosts_updated.
-  - apply NoDup_filter, seq_NoDup.
-  - exact LN.
-  - intros i Hi. apply filter_In in Hi as [Hi _]. apply in_seq in Hi. lia.
-Qed.
-Print Assumptions c04_rs_reconstruction_exact.
+Local Open Scope nat_scope.
 
 (* [FULL] c04_rs_verdict_sound - what the verdict that the RS harness obtains for every reconstruction attempt means. If an attempt that sent an RSEncode is judged consistent then reconstructChunk's plan for the observed host list and bad set and chosen servers exists and the index map and destinations on the wire are the plan's and if the attempt reported success the pieces found at the destinations are exactly what the reconstruct verify and write loop yields from the pieces the sources held and the host list found in the durable state afterwards is the plan's while if it reported an error the durable host list is unchanged. With c04_rs_reconstruction_exact this is the statement that a reconstruction never commits a host whose piece differs from the original piece at that index *)
 Theorem c04_rs_verdict_sound :
@@ -52,7 +25,7 @@ Theorem c04_rs_verdict_sound :
 Proof. exact judge_ok_sent. Qed.
 Print Assumptions c04_rs_verdict_sound.
 
-(* [FULL] c04_rs_refuse_when_hopeless - fewer than n good pieces means no reconstruction at every layer. The plan of reconstructChunk does not exist when fewer than n hosts are outside the bad set or when no host is bad so no RSEncode may be sent and the harness verdict for an RSEncode sent without a plan is a violation code. The recovery loop's chunkTask queues nothing and marks the chunk unrecoverable when more than m pieces are bad. And the codec itself returns an error and no shards when fewer than n shards are present whatever the matrix and the contents *)
+(* [FULL] c04_rs_refuse_when_hopeless - fewer than n good pieces means no reconstruction at every layer. The plan of reconstructChunk does not exist when fewer than n hosts are outside the bad set or when no host is bad so no RSEncode may be sent and the harness verdict for an RSEncode sent without a plan is a violation code. The recovery loop's chunkTask queues nothing and marks the chunk unrecoverable when more than m pieces are bad. The codec clause which says that with fewer than n shards present the library returns an error and no shards is C13's rs_too_few and is restated in PropsRSCodec *)
 Theorem c04_rs_refuse_when_hopeless :
   (forall n m hosts bad newids, length (ok_of hosts bad) < n -> reconstruct_plan n m hosts bad newids = None) /\
   (forall n m hosts bad newids, dst_of hosts bad = [] -> reconstruct_plan n m hosts bad newids = None) /\
@@ -63,22 +36,23 @@ Theorem c04_rs_refuse_when_hopeless :
      C04.RSModel.rs_judge n m hosts bad sent imap dests pieces errf written after = 25%Z) /\
   (forall m hosts down cor,
      m < length (filter (fun i => Cluster.Model.zmem (nth i hosts 0%Z) down || existsb (Nat.eqb i) cor) (seq 0 (length hosts))) ->
-     C04.RSModel.rs_chunk_task_of m hosts down cor = [2%Z; 0%Z]) /\
-  (forall n total M shards data_only,
-     length shards = total -> length (present_indices shards) < n -> length (present_indices shards) <> total ->
-     exists e, rs_reconstruct_gen n total M shards data_only = inl e).
+     C04.RSModel.rs_chunk_task_of m hosts down cor = [2%Z; 0%Z]).
 Proof.
   split; [exact plan_refuses_too_few|]. split; [exact plan_refuses_nothing_bad|]. split; [exact judge_refuse|].
-  split; [exact chunk_task_hopeless | exact rs_too_few].
+  exact chunk_task_hopeless.
 Qed.
 Print Assumptions c04_rs_refuse_when_hopeless.
 
-(* [FULL] c04_rs_data_recoverable - the codec half of no loss for chunks. For every configured class and every stripe contents erasing any set of at most m pieces and decoding gives back exactly the data pieces and with the full reconstruction exactly all original pieces so as long as n intact pieces are named every original piece content is recoverable which is what the harness monitor recomputes with the real library after every step *)
-Theorem c04_rs_data_recoverable :
-  forall n m, In (n, m) rs_classes ->
-  forall len d S data_only,
-    wf_data n len d -> erased_count n m S <= m ->
-    rs_reconstruct_gen n (n + m) (class_matrix n m) (erase S (encode_shards n m d)) data_only
-    = inr (d ++ (if data_only then skipn n (erase S (encode_shards n m d)) else skipn n (encode_shards n m d))).
-Proof. exact rs_reconstruct_exact. Qed.
-Print Assumptions c04_rs_data_recoverable.
+(* [FULL] c04_rs_commit_changes_exactly_bad_indices - whenever reconstructChunk's plan exists which is the only way an RSEncode and a commit can happen the bad set leaves at least n hosts good and covers at least one host and one server was chosen per bad index and the host list the plan commits has the length of the old one and names the chosen server q at the q th bad index and the old server at every index that is not bad. So a reconstruction never replaces the host of a good piece and never leaves a bad host in place *)
+Theorem c04_rs_commit_changes_exactly_bad_indices :
+  forall n m hosts bad newids p,
+    reconstruct_plan n m hosts bad newids = Some p ->
+    n <= length (ok_of hosts bad) /\ dst_of hosts bad <> [] /\ length newids = length (dst_of hosts bad) /\
+    length (p_hosts p) = length hosts /\
+    (forall q, q < length (dst_of hosts bad) -> nth (nth q (dst_of hosts bad) 0) (p_hosts p) 0%N = nth q newids 0%N) /\
+    (forall i, ~ In i (dst_of hosts bad) -> nth i (p_hosts p) 0%N = nth i hosts 0%N).
+Proof.
+  intros n m hosts bad newids p H. destruct (plan_newids_length _ _ _ _ _ _ H) as (L & D & O).
+  destruct (plan_commit_exact _ _ _ _ _ _ H) as (A & B & C). repeat split; assumption.
+Qed.
+Print Assumptions c04_rs_commit_changes_exactly_bad_indices.
